@@ -91,7 +91,9 @@ EEStep ==
 
 EEDone == mode = "ee" /\ pc = "done"
 Total(c) == MapThenSumSet(LAMBDA p : c.img[p[1]+1][p[2]+1], Pix(c.n, c.n))
-EEStartsAtZero == EEDone => (cfg.r2s[1] = 0 => res[1] = <<0, 0>>)
+\* the first node (radius 0) holds at most the one pixel whose centre IS the chosen centre; the curve itself starts at the
+\* prepended origin (0, 0), which the harness checks on the returned arrays
+EEStartsAtZero == EEDone => (cfg.r2s[1] = 0 => res[1][1] = Cardinality({ p \in Pix(cfg.n, cfg.n) : D2q(p, cfg.xc2, cfg.yc2) = 0 }))
 EEMonotone == EEDone => \A k \in 1..Len(res)-1 : (cfg.r2s[k] <= cfg.r2s[k+1]) => (res[k][1] <= res[k+1][1] /\ res[k][2] <= res[k+1][2])
 EEAtMostOne == EEDone => \A k \in 1..Len(res) : res[k][2] <= Total(cfg)
 
